@@ -81,7 +81,12 @@ func (fr *frame) park(ready func() bool, what string) {
 		self.what = what
 		next := s.pick(self)
 		if next == nil {
-			// nothing can run
+			// nothing else can run
+			if ready() {
+				// (a yield with nobody to yield to)
+				self.state = 0
+				return
+			}
 			if self.id == 0 {
 				self.state = 0
 				i.ctx.end("BLOCKED", "%s", what)
